@@ -79,7 +79,10 @@ func ToCatalog(rows []any, ident string, identRight string, joinExpr sqlparser.E
 			if err != nil {
 				return nil, err
 			}
-			buffer.WriteString(fmt.Sprintf("%v", reader))
+			// the length in front of each value keeps ("a-", "b") and ("a", "-b") apart
+			text := fmt.Sprintf("%v", reader)
+			buffer.WriteString(fmt.Sprintf("%d:", len(text)))
+			buffer.WriteString(text)
 			buffer.WriteString("-")
 			mapper[mappedColumns[column]] = reader
 		}
